@@ -453,3 +453,17 @@ def d6(cx: Cx, ob: Ob) -> None:
                         witness="records obo -> http://purl.obolibrary.org/obo/ and go; rewire {'go': 'http://purl.obolibrary.org/obo/GO_'} is skipped",
                         detail="prefix-match-as-ownership",
                     )
+
+
+@obligation("C12-X1", "OWN (shared with C10): remap_uri_prefixes / rewire neither store into, mutate nor capture the Record objects of their input converter", floor=6)
+def x1(cx: Cx, ob: Ob) -> None:
+    from .c10 import check_no_aliasing
+
+    check_no_aliasing(cx, ob)
+
+
+@obligation("C12-X2", "state closure (shared with C05): derived converter state is written only by the constructor and _index - no function outside the class (remap_uri_prefixes, rewire) writes into a converter's lookup tables, so the clash test `new in converter.reverse_prefix_map` sees the same table on every call", floor=5)
+def x2(cx: Cx, ob: Ob) -> None:
+    from ..rules import state_closure
+
+    state_closure(cx, ob)
